@@ -2,7 +2,7 @@
 from checks import oracles
 from checks.conc_check import run_conc
 from checks.durable_check import replay_execution
-from checks.executor_common import STRICT, c09, c09_decided_but_suspended, c09_returns_promptly
+from checks.executor_common import STRICT, batch_items_own_outcome, c09, c09_decided_but_suspended, c09_returns_promptly
 
 
 def decide_during_resume(ctx, execs):
@@ -31,6 +31,20 @@ def decide_during_resume(ctx, execs):
         for rep in range(2 if ctx.quick else 6):
             items.append(({"nodes": [node, {"k": "step"}]}, {"seed": rng.randrange(1 << 30), "max_inv": 16, "api_latency": 75.0,
                                                             "hang_after": 600.0, "strategy": "pct" if rep % 2 else "random"}))
+    # oversized results (recorded as a summary, rebuilt from the children on replay) of calls whose completion policy mattered:
+    # tolerated failures, min_successful reached with branches never started; the call is replayed in later invocations
+    st = {"k": "step"}
+    big = [{"nodes": [{"k": "map", "explicit_cfg": True, "large_items": [0, 2], "cfg": {"tolc": 1}, "braise": [1], "caught": True,
+                       "branches": [[st], [], [st], [st]]}, {"k": "wait"}, st]},
+           {"nodes": [{"k": "par", "explicit_cfg": True, "maxc": 1, "large_items": [0], "cfg": {"min": 2, "tolc": 1}, "braise": [1], "caught": True,
+                       "branches": [[st], [], [st], [st]]}, {"k": "wait"}, {"k": "wait"}]},
+           {"nodes": [{"k": "map", "explicit_cfg": True, "maxc": 1, "large_items": [0, 1], "cfg": {"min": 2}, "branches": [[st], [st], [st]]}, {"k": "wait"}, st]},
+           {"nodes": [{"k": "par", "explicit_cfg": True, "large_items": [1], "cfg": {"tolp": 50}, "braise": [0], "caught": True,
+                       "branches": [[], [st], [st]]}, {"k": "wait"}]}]
+    for p in big:
+        for rep in range(2 if ctx.quick else 8):
+            items.append((p, {"seed": rng.randrange(1 << 30), "max_inv": 12, "api_latency": (0.0, 0.05)[rep % 2],
+                              "strategy": "pct" if rep % 2 else "random", **({"paging": "random"} if rep % 3 == 2 else {})}))
     out = run_campaign(ctx, items)
     for e in out:
         for fn in (c09, c09_decided_but_suspended, c09_returns_promptly, oracles.c07):
@@ -40,7 +54,7 @@ def decide_during_resume(ctx, execs):
 
 
 def run(ctx):
-    run_conc(ctx, invs=STRICT["C09"], oracle_fns=[c09, c09_decided_but_suspended, c09_returns_promptly, oracles.c07],
+    run_conc(ctx, invs=STRICT["C09"], oracle_fns=[c09, c09_decided_but_suspended, c09_returns_promptly, batch_items_own_outcome, oracles.c07],
              post=decide_during_resume,
              extra_rule="Oracle: one item per input in order; SUCCEEDED/FAILED items carry the branch's own return value / error "
                         "(ground truth recorded inside the branch body); the policy was decided when the call returned; the reason is "
